@@ -44,6 +44,25 @@ func c10Same(es []c10Entry, b *baseStore, label string) {
 	sym.Assert(b.SizeBytes() == size, label+"-size")
 }
 
+// c10Mutate changes a store after its snapshot was taken: a new key, an existing key
+// overwritten or everything deleted, through the real write path.
+func c10Mutate(s Store, b *baseStore) {
+	switch sym.Choice("mutation", 3) {
+	case 0:
+		s.SetBytes(1, "zz-new", []byte{9})
+	case 1:
+		for k := range b.kv {
+			s.SetBytes(1, k, []byte{7, 7, 7})
+		}
+	default:
+		s.DeletePrefix(1, "")
+	}
+	if err := s.Flush(); err != nil {
+		sym.Unreachable("mutation-flush-ok")
+	}
+	s.Reset()
+}
+
 // VerifC10RoundTrip: saving a full or partial store and loading it back gives
 // the same keys, values, deleted-prefix list and size.
 func VerifC10RoundTrip() {
@@ -63,6 +82,11 @@ func VerifC10RoundTrip() {
 		if err != nil {
 			sym.Unreachable("save-ok")
 			return
+		}
+		if sym.Param("MUTATE", 0) == 1 {
+			// the snapshot is written asynchronously while the store moves on to the next
+			// segment: what is saved is the content at Save time
+			c10Mutate(s, s.baseStore)
 		}
 		if err := w.Write(ctx); err != nil {
 			sym.Unreachable("write-ok")
@@ -92,6 +116,10 @@ func VerifC10RoundTrip() {
 	if err != nil {
 		sym.Unreachable("partial-save-ok")
 		return
+	}
+	if sym.Param("MUTATE", 0) == 1 {
+		c10Mutate(p, p.baseStore)
+		p.DeletedPrefixes = append(p.DeletedPrefixes, "zz")
 	}
 	if err := w.Write(ctx); err != nil {
 		sym.Unreachable("partial-write-ok")
